@@ -108,6 +108,10 @@ def judge_cases(v, univ, cases, gens, owned, label, c01=True, extra_records=None
                 names.add("C12." + k.replace("_escape", "_raises_only_PacketError"))
             if k.endswith("_str_error"):
                 names.add("C12.str_total")
+            if k == "silent_error":
+                names.add("C12.silent")
+            if k == "notbytes_error":
+                names.add("C12.not_bytes")
         result.append((rec, meta[i], names))
     return result
 
@@ -150,7 +154,7 @@ def decide(v, judged, owned):
 def exhaustive_part(v, universe, invariants, gens, owned, lenbonus=0, opts=None, c01=True, max_judge=400):
     res = run_mc(v, universe, invariants, lenbonus)
     univ = res.univ
-    n, mism = rp.replay_all(univ, res.emits, gens, opts or {})
+    n, mism = rp.replay_all(univ, res.emits, gens, dict(opts or {}, c01=c01))
     v.cov["traces_validated_against_impl"] += n
     v.cov["replay_runs"] = v.cov.get("replay_runs", 0) + n
     for c in res.emits:
@@ -160,22 +164,18 @@ def exhaustive_part(v, universe, invariants, gens, owned, lenbonus=0, opts=None,
         v.sample({"direction": "spec->code", "universe": universe, "declaration": univ[c["d"] - 1]["prog"],
                   "raw": c["raw"], "start": c["start"], "spec_unpack": c["u"]["st"],
                   "spec_values": c["u"]["result"], "spec_pack": c["p"].get("out")})
-    harness = [m for m in mism if m["clause"] == "harness"]
+    harness = [m for m in mism if "harness" in m["clauses"]]
     if harness:
         raise common.MachineryFailure("replay harness exception: " + harness[0]["detail"])
-    # distinct mismatching cases -> TLC judges the recorded executions
-    seen = {}
-    for m in mism:
-        k = (m["d"], tuple(m["raw"]), m["start"])
-        seen.setdefault(k, {"d": m["d"], "raw": m["raw"], "start": m["start"]})
-    v.cov["cases_differing_from_spec"] = v.cov.get("cases_differing_from_spec", 0) + len(seen)
-    todo = list(seen.values())
-    # judge those owning a relevant python-side clause first
-    prio = {(m["d"], tuple(m["raw"]), m["start"]) for m in mism if m["clause"] in owned}
-    todo.sort(key=lambda c: (0 if (c["d"], tuple(c["raw"]), c["start"]) in prio else 1))
-    todo = todo[:max_judge]
+    # executions differing from the specification -> TLC judges the RECORDED observations
+    v.cov["executions_differing_from_spec"] = v.cov.get("executions_differing_from_spec", 0) + len(mism)
+    mism.sort(key=lambda m: 0 if any(c in owned for c in m["clauses"]) else 1)
+    todo = mism[:max_judge]
     if todo:
-        judged = judge_cases(v, univ, todo, gens, owned, "Trace_Packet on %d cases differing from the specification (%s)" % (len(todo), universe), c01=c01)
+        extra = [(m["rec"], {"d": m["d"], "gen": m["gen"], "extra": m["extra"]}) for m in todo]
+        judged = judge_cases(v, univ, [], gens, owned,
+                             "Trace_Packet on %d recorded executions differing from the specification (%s)" % (len(todo), universe),
+                             c01=c01, extra_records=extra)
         decide(v, judged, owned)
     return res
 
